@@ -304,15 +304,17 @@ func ckksEncoderTarget() *Target {
 		case "[]float64":
 			return make([]float64, n)
 		case "[]bigfloat":
+			// explicit precision: the precision of a caller-provided big.Float is the caller's choice (an
+			// input of the call by math/big's conventions), so it is the same in every output history
 			v := make([]*big.Float, n)
 			for i := range v {
-				v[i] = new(big.Float)
+				v[i] = new(big.Float).SetPrec(128)
 			}
 			return v
 		}
 		v := make([]*bignum.Complex, n)
 		for i := range v {
-			v[i] = &bignum.Complex{new(big.Float), new(big.Float)}
+			v[i] = &bignum.Complex{new(big.Float).SetPrec(128), new(big.Float).SetPrec(128)}
 		}
 		return v
 	}}
